@@ -103,16 +103,41 @@ pub fn items_ok(cs: &[char]) -> bool {
     }
     true
 }
-/// true = inside the fragment (valid or the designated invalid form)
+/// `a [ b`: item sequences of the fragment around one never closed `[` (`a` without a final `$`)
+pub fn unclosed_group(cs: &[char]) -> bool {
+    match cs.iter().position(|c| *c == '[') {
+        Some(i) => items_ok(&cs[..i]) && (i == 0 || cs[i - 1] != '$') && items_ok(&cs[i + 1..]),
+        None => false,
+    }
+}
+/// true = inside the fragment (valid or one of the designated invalid forms)
 pub fn pat_supported(p: &str) -> bool {
     if !p.is_ascii() {
         return false;
     }
     let cs: Vec<char> = p.chars().collect();
     match cs.first() {
-        Some('*') | Some('+') | Some('^') => items_ok(&cs[1..]),
-        _ => items_ok(&cs),
+        Some('*') | Some('+') => items_ok(&cs[1..]),
+        Some('^') => items_ok(&cs[1..]) || unclosed_group(&cs[1..]),
+        _ => items_ok(&cs) || unclosed_group(&cs),
     }
+}
+/// mirror of `Regex.f32Whole?`: link-bandwidth values the Lean driver can render
+pub fn lb_ok(c: &[u8]) -> bool {
+    if !(c.len() == 8 && c[0] == 0x40 && c[1] == 0x04) {
+        return true;
+    }
+    let bits = u32::from_be_bytes([c[4], c[5], c[6], c[7]]);
+    let (e, m) = (bits >> 23, bits & 0x7f_ffff);
+    if bits == 0 {
+        return true;
+    }
+    if (127..=150).contains(&e) {
+        let sig = 0x80_0000u32 + m;
+        let sh = 150 - e;
+        return sig % (1u32 << sh) == 0;
+    }
+    false
 }
 pub fn is_u32_str(s: &str) -> bool {
     !s.is_empty() && s.len() <= 10 && s.chars().all(|c| c.is_ascii_digit()) && s.parse::<u64>().map(|v| v <= u32::MAX as u64).unwrap_or(false)
@@ -244,7 +269,7 @@ pub fn decode_route(attrs: &[AAttr], net: &IpAddr, mask: u8) -> Option<Arc<Vec<A
         }
         if a.code == 16 {
             if let AData::Bin(b) = &a.data {
-                if b.chunks(8).any(|c| c.len() == 8 && c[0] == 0x40 && c[1] == 0x04) {
+                if b.chunks(8).any(|c| !lb_ok(c)) {
                     return None;
                 }
             }
@@ -289,6 +314,16 @@ pub fn decode_route(attrs: &[AAttr], net: &IpAddr, mask: u8) -> Option<Arc<Vec<A
             pa.push(payload.len() as u8);
         }
         pa.extend_from_slice(&payload);
+    }
+    // A vector without ORIGIN / AS_PATH is what the API builds for a locally originated route; the
+    // wire needs both, so they are sent (last) and taken out of the decoded vector again.
+    let no_origin = !attrs.iter().any(|a| a.code == Attribute::ORIGIN);
+    let no_path = !attrs.iter().any(|a| a.code == Attribute::AS_PATH);
+    if no_origin {
+        pa.extend_from_slice(&[0x40, 1, 1, 0]);
+    }
+    if no_path {
+        pa.extend_from_slice(&[0x40, 2, 0]);
     }
     let nbytes = (mask as usize).div_ceil(8);
     let mut nlri: Vec<u8> = vec![mask];
@@ -342,16 +377,18 @@ pub fn decode_route(attrs: &[AAttr], net: &IpAddr, mask: u8) -> Option<Arc<Vec<A
             if !ok {
                 return None;
             }
-            match &api_path {
-                None => Some(attr.clone()),
-                Some(b) => {
-                    let v: Vec<Attribute> = attr
-                        .iter()
-                        .map(|a| if a.code() == Attribute::AS_PATH { Attribute::new_with_bin(Attribute::AS_PATH, b.clone()).unwrap() } else { a.clone() })
-                        .collect();
-                    Some(Arc::new(v))
-                }
+            if api_path.is_none() && !no_origin && !no_path {
+                return Some(attr.clone());
             }
+            let v: Vec<Attribute> = attr
+                .iter()
+                .filter(|a| !(no_origin && a.code() == Attribute::ORIGIN) && !(no_path && a.code() == Attribute::AS_PATH))
+                .map(|a| match &api_path {
+                    Some(b) if a.code() == Attribute::AS_PATH => Attribute::new_with_bin(Attribute::AS_PATH, b.clone()).unwrap(),
+                    _ => a.clone(),
+                })
+                .collect();
+            Some(Arc::new(v))
         }
         _ => None,
     }
@@ -482,6 +519,10 @@ pub fn route_of(t: &Term) -> Option<Route> {
         "invalid" => Rpki::Invalid,
         _ => return None,
     };
+    // a validation state is declared only for routes that carry an AS_PATH
+    if rp != Rpki::None && !aattrs.iter().any(|a| a.code == Attribute::AS_PATH) {
+        return None;
+    }
     // Build a VRP table that yields the declared state for this route (checked below).
     let rpki = match rp {
         Rpki::None => None,
@@ -826,7 +867,7 @@ pub fn actions_of(t: &Term) -> Option<Actions> {
                 for c in a[1].as_list()? {
                     let b = c.as_bytes()?;
                     let arr: [u8; 8] = b.try_into().ok()?;
-                    if arr[0] == 0x40 && arr[1] == 0x04 {
+                    if !lb_ok(&arr) {
                         return None;
                     }
                     v.push(arr);
